@@ -767,26 +767,32 @@ def ite_adapters(prog):
                 stored = cs.args[2]
         wr, rd = {}, {}
         why = []
+        ITE_PREDS = {"is_compl_choice": lambda v: v == "IteComplChoice"}
+        VAR = {0: "IteChoice", 1: "IteComplChoice"}
+
+        def spec(te_, t, flag):
+            # the flag is the variant of the triple: is_compl_choice(ite), or a match on the triple itself
+            return canon.project(canon.assume_variant(te_, _specialise(t, flag), ("param", 2), VAR[flag], ITE_PREDS))
         if stored is None:
             why.append("no insertion into the backing table found")
         else:
             st = canon.inline_local(prog, stored, helper_ok)
             for flag in (0, 1):
-                p_ = _parity(_specialise(st, flag), ("param", 3))
+                p_ = _parity(spec(te, st, flag), ("param", 3))
                 if p_ is None:
-                    why.append("stored value %s" % show(_specialise(st, flag))[:60])
+                    why.append("stored value %s" % show(spec(te, st, flag))[:60])
                 else:
                     wr[flag] = p_
         tg = get.terms
         rt = canon.inline_local(prog, tg.ret, helper_ok)
         for flag in (0, 1):
-            outs = canon.option_outcomes(prog, tg, _specialise(rt, flag))
+            outs = canon.option_outcomes(prog, tg, spec(tg, rt, flag))
             if not outs:
-                why.append("returned value %s" % show(_specialise(rt, flag))[:60])
+                why.append("returned value %s" % show(spec(tg, rt, flag))[:60])
                 continue
             ps = set()
             for o in outs:
-                o = _specialise(canon.inline_local(prog, o, helper_ok), flag)
+                o = spec(tg, canon.inline_local(prog, o, helper_ok), flag)
                 base = [x for x in mir.subterms(o) if canon.is_payload(x) and mir.is_call(strip(x[1][1]), "get")]
                 if not base:
                     continue   # an answer that does not come from the table (a constant triple)
